@@ -373,3 +373,22 @@ Definition chk_flat_parent (bs : list base) (level : nat) (serial : bool) (probe
 Definition chk_flat_neighborhood (bs : list base) (level : nat) (serial : bool) (window : list Z) (probes : list Z)
            (obs : list (list Z)) : bool :=
   zll_eqb (map (fun f => flat_neighborhood (flat_at bs level serial) f window) probes) obs.
+
+(* FlatGridAtLevel.coord2index(coord, return_valid=True):
+     index = self.grid_at_level.coord2index(coord)
+     valid = prod((ii >= 0) * (ii < sh) for ii, sh in zip(index, self.grid_at_level.shape))    # BEFORE parsing
+     index = self.grid_at_level._parse_index(index);  index = self.index2flatindex(index)
+   a coordinate is valid iff its (un-wrapped) voxel index lies in the level *)
+Definition flat_coord2index (fl : flat) (c : list Q) : Z * bool :=
+  let raw := coord2index (f_axes fl) c in
+  let valid := forallb (fun p => (0 <=? fst p) && (fst p <? a_shape (snd p))) (combine raw (f_axes fl)) in
+  (idx2flat fl 0 (map2 (fun a i => ax_parse a i) (f_axes fl) raw), valid).
+
+Definition chk_flat_coord2index (bs : list base) (level : nat) (serial : bool) (coords : list (list Q))
+           (obs_flat : list Z) (obs_valid : list bool) : bool :=
+  let r := map (flat_coord2index (flat_at bs level serial)) coords in
+  zl_eqb (map fst r) obs_flat && list_eqb Bool.eqb (map snd r) obs_valid.
+
+Definition chk_flat_coord2index_plain (bs : list base) (level : nat) (serial : bool) (coords : list (list Q))
+           (obs_flat : list Z) : bool :=
+  zl_eqb (map (fun c => fst (flat_coord2index (flat_at bs level serial) c)) coords) obs_flat.
